@@ -75,7 +75,46 @@ CLAIMED['C04'] = {
           'plain struct position, the catch-all tag) are stated in contracts/entrypoints.py: rt_domain.',
   'design': '7.3 (C04)',
 }
-NOT_YET = {}
+CLAIMED['C13'] = {
+  'text': 'Omission and redaction, partly proved: (1) StoneToPythonPrimitiveSerializer.encode_sub is proved (z3) to route, when redaction is '
+          'requested, every value whose validator carries a redactor through the redactor -- item by item for lists, value by value for maps -- '
+          'and never to the ordinary encoder (the hook cannot be bypassed at that level); (2) for a caller without extra permissions '
+          'encode_struct / encode_union are proved to emit exactly the fields / tags of the public tables (C05 proofs, re-run under this id), '
+          'and Union._is_tag_present / _get_val_data_type to consult only the public table. Everything that depends on a caller WITH '
+          'permissions, on nested redaction, and on the decoder is NOT proved: the postconditions of json_encode / json_decode taken from the '
+          'property text (omitted fields and tags absent without the permission and present with it; no clear text of a redacted position '
+          'anywhere in the output; an omitted field cannot be supplied in strict mode) are checked on generated values of an annotated '
+          'corpus (Omitted / RedactedBlot / RedactedHash on fields, tags, inherited fields, aliases, lists, maps, nesting <= 3) x every '
+          'subset of the permissions x redaction on/off -- a BOUNDED stand-in.',
+  'note': 'Proved: the redaction hook of encode_sub (35 paths) and the no-permission field/tag selection. Assumed: the bodies of '
+          'HashRedactor.apply / BlotRedactor.apply (regex, md5, string joins: S.redact_apply is uninterpreted) and the placement of _redact / '
+          'per-permission tables by the generator (checked only through the compiled corpus). Bounded, not proved: json_encode and json_decode '
+          'on 600 / 8000 generated cases each per run.',
+  'design': '7.3 (C13)',
+}
+NOT_YET = {
+ 'C01': 'not decided by this technique in this revision: acceptance <=> language rules is a property of the whole frontend (ply lexer / LALR tables, '
+        'the parser actions and the ten resolution passes of ir_generator.py, ~2000 lines over mutable AST/IR graphs), which is outside the Python '
+        'subset the VC generator handles; only the literal-check layer of the IR primitive types is under contract (proved, tagged C01/C03/C10 in '
+        'contracts/ir_types.py) and one layer does not decide the property',
+ 'C02': 'not decided: a whole-pipeline property (AST -> IR faithfulness across all passes). Proved pieces exist (ApiNamespace.add_route keeps the by-name '
+        'tables equal to the route list) but the passes that build the description are outside the VC generator; not claimed on that basis',
+ 'C03': 'not decided: escape-set obligations ("nothing but the spec error escapes") are proved only for the check / constructor layer of the IR primitive '
+        'types (where they found and fixed a TypeError escape, fix 2a11247); the ~150 raise sites and implicit failure points of parser.py and '
+        'ir_generator.py are not under contract, so the property as stated (any text) is not claimed',
+ 'C07': 'not decided: needs lemmas over Enc/Dec for pairs of type descriptions including structs and unions; the composite round-trip induction over the '
+        'recursive specification functions did not go through the merge-mode evaluator (see C04), so these lemmas are not available',
+ 'C11': 'not decided: independence of file / definition order is a property of the resolution passes as a whole (and of stdin splitting in cli.main); no '
+        'function-level contract within reach carries it. The planned contracts on Api.normalize / ApiNamespace.normalize (sortedness) were not built: '
+        'list.sort with a key is not modelled',
+ 'C12': 'not applicable to this technique: determinism across processes, hash seeds and output directories is a relation between runs; a function '
+        'contract can state order-insensitivity of one function over a set, which was planned for the anchor list but needs a model of set iteration '
+        'order that the engine does not have',
+ 'C18': 'not decided: containment needs a ghost file-system model with generator functions (yield / with) and os.path as axiomatised library, verbatim '
+        'emission is a property of string contents; strings are opaque (interned) in this engine and the effect trace was not built',
+ 'C20': 'not decided: the closure is computed by a recursive traversal over mutable sets / defaultdicts with doc-reference regexes '
+        '(_find_dependencies_recursive), outside the VC generator subset; no bounded stand-in was built either',
+}
 NA = {
  'C09': 'property of emitted Python source when imported; no contract on an emitting function can express the semantics of its output text',
  'C14': 'observable only by calling emitted client methods (semantics of emitted text); no carrier function within contract reach',
